@@ -88,10 +88,20 @@ def gen_case(seed, ncomp):
 def make_params(comps, vary, via):
     import lmfit
     p = lmfit.Parameters()
-    for i, (c, v) in enumerate(zip(comps, vary)):
-        for n, val, vv in zip(PN, c, v):
-            p.add('c%d_%s' % (i, n), value=float(val), vary=bool(vv))
-    p.add('components', value=len(comps), vary=False)
+    entries = [('c%d_%s' % (i, n), float(val), bool(vv)) for i, (c, v) in enumerate(zip(comps, vary))
+               for n, val, vv in zip(PN, c, v)]
+    # the order in which a caller happens to add the entries to the Parameters object is not part of the model:
+    if via == "bykind":          # c0_amp, c1_amp, ..., c0_xo, c1_xo, ...
+        entries.sort(key=lambda e: (PN.index(e[0].split('_', 1)[1]), int(e[0][1:].split('_')[0])))
+    elif via == "shapefirst":    # per component: sx, sy, theta, amp, xo, yo; last component first
+        order = {n: k for k, n in enumerate(list(PN[3:]) + list(PN[:3]))}
+        entries.sort(key=lambda e: (-int(e[0][1:].split('_')[0]), order[e[0].split('_', 1)[1]]))
+    if via in ("bykind", "shapefirst"):
+        p.add('components', value=len(comps), vary=False)
+    for name, val, vv in entries:
+        p.add(name, value=val, vary=vv)
+    if via not in ("bykind", "shapefirst"):
+        p.add('components', value=len(comps), vary=False)
     if via == "deepcopy":       # what do_lmfit / lmfit.minimize hand on
         p = copy.deepcopy(p)
     return p
@@ -440,7 +450,7 @@ def make_jobs(ctx, pats, quick):
             if any(any(r) for r in v):
                 break
         modes = [rng.choice(MODES)] if quick else rng.sample(MODES, 2)
-        jobs.append(("rnd%05d" % n, v, rng.randint(1, 10 ** 6), modes, "fresh", True))
+        jobs.append(("rnd%05d" % n, v, rng.randint(1, 10 ** 6), modes, ("fresh", "fresh", "bykind", "shapefirst")[n // 4 % 4], True))
     # (3) the parameter objects the optimiser / pipeline actually hands over
     #     (do_lmfit and lmfit.minimize deep-copy the Parameters)
     for n, v in enumerate([[[True] * 6], [[True] * 6, [True, True, True, False, False, False]],
